@@ -34,7 +34,7 @@ REPORT = ['modules', 'evaluations', 'sequential_ops', 'threaded_ops', 'thread_sw
           'failing_then_valid_adjacencies', 'inputs_checked_unmodified']
 FLOORS = {'quick': {'evaluations': 10000, 'threaded_ops': 3000, 'thread_switches_inside_asn1tools': 5000},
           'thorough': {'evaluations': 40000, 'threaded_ops': 12000, 'thread_switches_inside_asn1tools': 20000}}
-TIMEOUT = {'quick': 1800, 'thorough': 14000}
+TIMEOUT = {'quick': 1800, 'thorough': 5400}
 
 
 def shards(tier):
